@@ -95,3 +95,38 @@ func HC18_nullableWrappers() {
 	vfObserve("outcome", msg)
 	vfAssert(!rt, "C18/nullable-wrapper-no-runtime-error")
 }
+
+// HC18_sqlRecursiveTypes: the JSON-validator generator on self-referential named types (a named
+// slice / map of itself, directly or through nesting): it returns (declarations or a diagnostic), it
+// never recurses without bound.
+func HC18_sqlRecursiveTypes() {
+	pkg := skelPkg()
+	self := an.VfNewNamed(skelNamed(pkg, "Self", types.NewStruct(nil, nil)), nil)
+	var under an.AnonymousType
+	switch vfChoice("shape", 4) {
+	case 0:
+		under = &an.Array{Elem: self, Len: -1}
+	case 1:
+		under = &an.Map{Key: an.String, Elem: self}
+	case 2:
+		under = &an.Map{Key: an.String, Elem: &an.Array{Elem: self, Len: -1}}
+	default:
+		under = &an.Array{Elem: &an.Map{Key: an.String, Elem: self}, Len: 2}
+	}
+	self.Underlying = under
+	var rt bool
+	var msg string
+	terminated := vfTerminates(func() {
+		rt, msg = skelDiagnostic(func() {
+			codeFor(self, make(gen.Cache))
+			_ = functionName(self)
+		})
+	})
+	vfKnown("C18/validator-name-of-a-self-referential-named-slice-or-map-recurses-without-bound", true)
+	vfAssert(terminated, "C18/sql-validators-of-a-recursive-declaration-terminates")
+	if !terminated {
+		return
+	}
+	vfObserve("outcome", msg)
+	vfAssert(!rt, "C18/sql-validators-no-runtime-error")
+}
